@@ -87,13 +87,14 @@ def touchesMaildir (env : PEnv) (w : World) : Call → Bool
   | .renameat .. | .utimensat .. | .fprintf .. | .mkostemp .. | .fork | .unlink .. => true
   | _ => false
 
-/-- C05 (-d), maildir mode: a dry run issues no mutating call and starts no process at all,
-whatever the configuration, the messages and the fault plan are (command conditions are not
-modelled as calls: their effect on the valuation is a parameter of the evaluator). -/
+/-- C05 (-d), maildir mode: a dry run issues no mutating call, whatever the configuration, the messages and the
+fault plan are, and it starts a process only if some rule tree has a `command` CONDITION (conditions are evaluated
+under `-d` as they are otherwise, `expr_eval_command` forks; no action is executed). -/
 theorem dryrun_no_mutation (env : PEnv) (orc : EvalOracles) (ok : Bool) (conf : List ConfBlock) (files : Files) (input : Bytes)
     (w : World) (plan : Plan) (hd : env.dryrun = true) (hm : env.stdinMode = false) :
-    ∀ c ∈ callsOf plan (mainP env orc ok conf files input) w, c.mutating = false ∧ c ≠ .fork :=
-  World.quiet_callsOf plan _ w (World.quiet_mainP env orc ok conf files input hd hm)
+    ∀ c ∈ callsOf plan (mainP env orc ok conf files input) w,
+      c.mutating = false ∧ (c = .fork → confHasCommand conf = true) :=
+  World.quiet_callsOf _ plan _ w (World.quiet_mainP env orc ok conf files input hd hm)
 
 /-- C04: the exit status is computed from the error and reject flags only: 0/1 in maildir mode;
 in stdin mode 75 iff an error occurred, else 1 iff a reject was executed, else 0. -/
